@@ -12,6 +12,8 @@ import BS.Proofs.ReadRange
 import BS.Proofs.ReadNCaches
 import BS.Proofs.LineOffset
 import BS.Proofs.CacheOpen
+import BS.Proofs.Push
+import BS.Props.C16
 
 namespace BS.Gen
 open BS.Impl
@@ -388,5 +390,32 @@ specification) and reports its size -/
 theorem gen_write_is_documented_section (ts p : Nat) (hp : p < 2^60) :
     write (le8 ts) p = .ok (Spec.encSection p ts, Spec.secSize p) := by
   rw [write_tie ts p hp, spec_encSection, spec_secSize]
+
+/-- **C01 / C15 on the translated code**: one accepted append by `Data::push_data` AS TRANSLATED FROM THE CURRENT
+SOURCE - its `write_all` calls carried out in order on the two files - leaves the data file, the index file and
+the in-memory fields exactly what the documented format prescribes for the longer history (`DataInv`, stated over
+`Spec.encode` / `Spec.encIndex`), for every history, payload size and line -/
+theorem gen_push_data_keeps_documented_format (hdr ihdr : Bytes) (st : Store) (d : DataSess) (xs : List Entry) (e : Entry)
+    (hinv : DataInv hdr ihdr st d xs) (hv : Valid d.p (xs ++ [e]))
+    (hp : d.p < 2^60) (hlen : d.dataLen + Impl.metaSize d.p + Impl.lineSize d.p < 2^64) :
+    ∃ st' d', runPushData st d (Data_push_data d.view e.ts e.pl) = .ok (st', d') ∧ d'.p = d.p ∧
+      DataInv hdr ihdr st' d' (xs ++ [e]) := by
+  have hl : d.p ≤ e.pl.length := by
+    have := (hv.2 e (by simp)).2
+    omega
+  rw [push_data_tie st d e.ts e.pl hp hl hlen]
+  exact pushData_inv hdr ihdr st d xs e hinv hv
+
+/-- **C16 on the translated code**: whatever `Data::push_data` as translated from the current source does to the
+files is an append: each file keeps its previous content as a prefix; a refusal is `OutOfOrder` and has no state -/
+theorem gen_push_data_only_appends (st : Store) (d : DataSess) (ts : Nat) (line : Bytes)
+    (hp : d.p < 2^60) (hl : d.p ≤ line.length) (hlen : d.dataLen + Impl.metaSize d.p + Impl.lineSize d.p < 2^64) :
+    match runPushData st d (Data_push_data d.view ts line) with
+    | .ok (st', _) => Props.C16.Grows st.data st'.data ∧ Props.C16.Grows st.index st'.index ∧ st'.part = st.part
+    | .error f => f = .err "OutOfOrder" := by
+  rw [push_data_tie st d ts line hp hl hlen]
+  cases h : pushData st d ts line with
+  | ok r => exact Props.C16.pushData_appends st d ts line r.1 r.2 h
+  | error f => exact Props.C16.pushData_error_no_state st d ts line f h
 
 end BS.Gen
